@@ -144,6 +144,9 @@ SLOT = {
     "I": ["", "py", " py ", "py x", "&#32;", "{x}", "py&amp;", "\tpy", "c++", "a\"b"],
     "W": ["foo", "note", "alpha", "x", "HTML", "warning", "unknown", "toc", "lt", "copy"],
     "N": ["0", "00", "1", "2", "9", "10", "123456789", "007"],
+    # digit-like values: str.isdigit() / \d accept more than int() does (superscripts, circled digits), other scripts' decimals, full-width forms,
+    # values longer than int()'s 4300-digit limit, units and signs
+    "D": ["10", "1\u00b2", "2\u2460", "10\u00b3\u00b9", "\u0663", "\u0967\u0968", "\uff10\uff10\uff17", "1" * 4400, "\u00bd", "1.5", "10%", "10px", "1e3", "-1", "+1", "0x10", "\uff11\uff10px", "7 ", "\u00b2", "\u2460", "1_000", "0"],
     "S": [" ", "  ", "   ", "\t", ""],
     "O": ["class", "text", "self", "name", "attrs", "title", "alt", "width", "max-level", "min-level", "collapse", "zqopt", "renderer", "key", "index", "encoding", "target", "figclass"],
     "I2": ["{.python}", "{#id}", "{r,echo=FALSE}", "{py:function}", "{.python .numberLines}", "{note", "note}", "{}", "{x y}"],
@@ -165,6 +168,8 @@ SLOT_TEMPLATES = [
     "<{U}>\n", "[{T}]({U} \"{T}\")\n", "![{T}]({U})\n", "[{T}](<{U}> '{T}')\n", "{T} <http://example.com/{L}> {T}\n", "[http://e.com/{L}](<http://e.com/{L}>)\n",
     "{T}\n{S}{T}\n{S}{T}\n", "{T} `a\n{S}b` {T}\n", "{T} <a\n{S}href='x'> {T}\n", "> {T}\n{S}{T}\n", "- {T}\n{S}{T}\n",
     "{N}. {T}\n{N}. {T}\n", "{N}) {T}\n\n{N}) {T}\n", "- {T}\n\n  {N}. {T}\n",
+    ".. image:: {U}\n   :width: {D}\n   :height: {D}\n", "```{{image}} {U}\n:width: {D}\n:height: {D}\n```\n", ".. figure:: {U}\n   :width: {D}\n   :figwidth: {D}\n\n   {T}\n", "```{{figure}} {U}\n:height: {D}\n:figwidth: {D}\n\n{T}\n```\n",
+    ".. toc:: {T}\n   :min-level: {D}\n   :max-level: {D}\n\n# {T}\n\n## {T}\n", "```{{toc}}\n:max-level: {D}\n```\n\n# {T}\n", "{D}. {T}\n{D}. {T}\n", "{D}) {T}\n",
     "[{W}({W})]\n", "${B}$\n", "$$\n{B}\n$$\n", "=={T}== ^{T}^ ~{T}~ ~~{T}~~ ^^{T}^^\n", "- [ ] {T}\n- [x] {T}\n", "&{W};{T} \\&{W}; &amp{T}\n", "{T} http://{L}.com/{L} {T} <{W}@{W}.com>\n",
     ">! {T}\n>! {T}\n", "{T} >!{T}!< {T}\n", "<div>\n{T}\n</div>\n\n{T}\n", "<pre>\n\n{B}\n\n\n", "{T}\n===\n\n{T}\n---\n", "{T}\\\n{T}  \n{T}\\\\\\\n{T}\n",
     "> > > > > > {T}\n\n> - {T}\n> - {T}\n>\n> > {T}\n", "- - - - - - {T}\n\n- {T}\n  - {T}\n", "[{L}]: {U}\n", "[{L}]: {U}\n[{W}]: {U} '{T}'\n",
@@ -230,7 +235,7 @@ def slot_sweep():
     """deterministic edge sweep: every template, every slot kind in it set (everywhere) to every filler of that kind, the
     other kinds at a plain default"""
     import re as _re
-    default = {"O": "class", "I2": "{.python}", "L": "foo", "T": "alpha", "U": "/u", "C": "a", "B": "x", "I": "", "W": "note", "N": "1", "S": " ", "Q": " ", "K": "\n"}
+    default = {"O": "class", "I2": "{.python}", "L": "foo", "T": "alpha", "U": "/u", "C": "a", "B": "x", "I": "", "W": "note", "N": "1", "D": "10", "S": " ", "Q": " ", "K": "\n"}
     out = []
     for tpl in SLOT_TEMPLATES:
         kinds = sorted(set(_re.findall(r"(?<!\{)\{([A-Z])\}", tpl)))
